@@ -30,7 +30,9 @@
      8. Park        threads_unpark_{transfers,self,monotone,objects},
                     exec_micro_unpark_transfers
      9. Spawn       spawn_transfers
-    10. Atomics     atomic_store_{publishes,publishes_released,relaxed_sync,other,...},
+    10. Atomics     atomic_store_from_{new_sync,new_value,new_hb,other,length} (any
+                    RMW source [src]; atomic_store is the instance src = None),
+                    atomic_store_{publishes,publishes_released,relaxed_sync,other,...},
                     alc_keeps_{sync,value}, load_view_keeps_*, atomic_load_{result,
                     acquires,relaxed,monotone}, atomic_rmw_release_sequence,
                     atomic_rmw_failure_loads, atomic_handover
@@ -1624,7 +1626,75 @@ Lemma at_cnt_set_stores : forall s st c, at_cnt (at_set_stores s st c) = c.
 Proof. reflexivity. Qed.
 
 (* the history after a store: slot aindex(cnt) is overwritten by a store whose
-   value / happens_before / sync are as follows *)
+   value / happens_before / sync are as follows.  [atomic_store_from] is the
+   general form (the store half of an RMW passes the slot and id of the store it
+   read as [src]); whatever [src] is, only the modification order of the new
+   store depends on it, and no lemma of this file looks at st_mo. *)
+Lemma at_stores_atomic_store_from : forall s me caus rel sync0 v o src, exists x,
+  at_stores (atomic_store_from s me caus rel sync0 v o src) =
+    list_set (at_stores s) (aindex (at_cnt s)) x /\
+  st_sync x = sync_store sync0 caus rel o /\
+  st_value x = v /\
+  st_hb x = caus.
+Proof.
+  intros s me caus rel sync0 v o src. unfold atomic_store_from. cbv zeta.
+  eexists. split; [reflexivity | split; [reflexivity | split; reflexivity]].
+Qed.
+
+Lemma at_cnt_atomic_store_from : forall s me caus rel sync0 v o src,
+  at_cnt (atomic_store_from s me caus rel sync0 v o src) = S (at_cnt s).
+Proof. reflexivity. Qed.
+
+Lemma atomic_store_from_length : forall s me caus rel sync0 v o src,
+  length (at_stores (atomic_store_from s me caus rel sync0 v o src)) = length (at_stores s).
+Proof.
+  intros s me caus rel sync0 v o src.
+  destruct (at_stores_atomic_store_from s me caus rel sync0 v o src) as [x [Hx _]].
+  rewrite Hx. apply list_set_length.
+Qed.
+
+Lemma atomic_store_from_new_sync : forall s me caus rel sync0 v o src,
+  length (at_stores s) = MAX_ATOMIC_HISTORY ->
+  st_sync (get_store (atomic_store_from s me caus rel sync0 v o src) (aindex (at_cnt s))) =
+  sync_store sync0 caus rel o.
+Proof.
+  intros s me caus rel sync0 v o src Hlen. unfold get_store.
+  destruct (at_stores_atomic_store_from s me caus rel sync0 v o src) as [x [Hx [Hs [Hv Hh]]]].
+  rewrite Hx. rewrite list_set_nth_same by (rewrite Hlen; apply aindex_lt). assumption.
+Qed.
+
+Lemma atomic_store_from_new_value : forall s me caus rel sync0 v o src,
+  length (at_stores s) = MAX_ATOMIC_HISTORY ->
+  st_value (get_store (atomic_store_from s me caus rel sync0 v o src) (aindex (at_cnt s))) = v.
+Proof.
+  intros s me caus rel sync0 v o src Hlen. unfold get_store.
+  destruct (at_stores_atomic_store_from s me caus rel sync0 v o src) as [x [Hx [Hs [Hv Hh]]]].
+  rewrite Hx. rewrite list_set_nth_same by (rewrite Hlen; apply aindex_lt). assumption.
+Qed.
+
+Lemma atomic_store_from_new_hb : forall s me caus rel sync0 v o src,
+  length (at_stores s) = MAX_ATOMIC_HISTORY ->
+  st_hb (get_store (atomic_store_from s me caus rel sync0 v o src) (aindex (at_cnt s))) = caus.
+Proof.
+  intros s me caus rel sync0 v o src Hlen. unfold get_store.
+  destruct (at_stores_atomic_store_from s me caus rel sync0 v o src) as [x [Hx [Hs [Hv Hh]]]].
+  rewrite Hx. rewrite list_set_nth_same by (rewrite Hlen; apply aindex_lt). assumption.
+Qed.
+
+Lemma atomic_store_from_other : forall s me caus rel sync0 v o src j,
+  j <> aindex (at_cnt s) ->
+  get_store (atomic_store_from s me caus rel sync0 v o src) j = get_store s j.
+Proof.
+  intros s me caus rel sync0 v o src j Hne. unfold get_store.
+  destruct (at_stores_atomic_store_from s me caus rel sync0 v o src) as [x [Hx _]]. rewrite Hx.
+  apply list_set_nth_other. intros Heq. apply Hne. symmetry. exact Heq.
+Qed.
+
+(* [atomic_store] is [atomic_store_from] without a source *)
+Lemma atomic_store_eq : forall s me caus rel sync0 v o,
+  atomic_store s me caus rel sync0 v o = atomic_store_from s me caus rel sync0 v o None.
+Proof. reflexivity. Qed.
+
 Lemma at_stores_atomic_store : forall s me caus rel sync0 v o, exists x,
   at_stores (atomic_store s me caus rel sync0 v o) =
     list_set (at_stores s) (aindex (at_cnt s)) x /\
@@ -1632,8 +1702,7 @@ Lemma at_stores_atomic_store : forall s me caus rel sync0 v o, exists x,
   st_value x = v /\
   st_hb x = caus.
 Proof.
-  intros s me caus rel sync0 v o. unfold atomic_store. cbv zeta.
-  eexists. split; [reflexivity | split; [reflexivity | split; reflexivity]].
+  intros s me caus rel sync0 v o. exact (at_stores_atomic_store_from s me caus rel sync0 v o None).
 Qed.
 
 Lemma at_cnt_atomic_store : forall s me caus rel sync0 v o,
@@ -1643,9 +1712,7 @@ Proof. reflexivity. Qed.
 Lemma atomic_store_length : forall s me caus rel sync0 v o,
   length (at_stores (atomic_store s me caus rel sync0 v o)) = length (at_stores s).
 Proof.
-  intros s me caus rel sync0 v o.
-  destruct (at_stores_atomic_store s me caus rel sync0 v o) as [x [Hx _]].
-  rewrite Hx. apply list_set_length.
+  intros s me caus rel sync0 v o. exact (atomic_store_from_length s me caus rel sync0 v o None).
 Qed.
 
 Lemma atomic_store_new_sync : forall s me caus rel sync0 v o,
@@ -1653,36 +1720,28 @@ Lemma atomic_store_new_sync : forall s me caus rel sync0 v o,
   st_sync (get_store (atomic_store s me caus rel sync0 v o) (aindex (at_cnt s))) =
   sync_store sync0 caus rel o.
 Proof.
-  intros s me caus rel sync0 v o Hlen. unfold get_store.
-  destruct (at_stores_atomic_store s me caus rel sync0 v o) as [x [Hx [Hs [Hv Hh]]]].
-  rewrite Hx. rewrite list_set_nth_same by (rewrite Hlen; apply aindex_lt). assumption.
+  intros s me caus rel sync0 v o. exact (atomic_store_from_new_sync s me caus rel sync0 v o None).
 Qed.
 
 Lemma atomic_store_new_value : forall s me caus rel sync0 v o,
   length (at_stores s) = MAX_ATOMIC_HISTORY ->
   st_value (get_store (atomic_store s me caus rel sync0 v o) (aindex (at_cnt s))) = v.
 Proof.
-  intros s me caus rel sync0 v o Hlen. unfold get_store.
-  destruct (at_stores_atomic_store s me caus rel sync0 v o) as [x [Hx [Hs [Hv Hh]]]].
-  rewrite Hx. rewrite list_set_nth_same by (rewrite Hlen; apply aindex_lt). assumption.
+  intros s me caus rel sync0 v o. exact (atomic_store_from_new_value s me caus rel sync0 v o None).
 Qed.
 
 Lemma atomic_store_new_hb : forall s me caus rel sync0 v o,
   length (at_stores s) = MAX_ATOMIC_HISTORY ->
   st_hb (get_store (atomic_store s me caus rel sync0 v o) (aindex (at_cnt s))) = caus.
 Proof.
-  intros s me caus rel sync0 v o Hlen. unfold get_store.
-  destruct (at_stores_atomic_store s me caus rel sync0 v o) as [x [Hx [Hs [Hv Hh]]]].
-  rewrite Hx. rewrite list_set_nth_same by (rewrite Hlen; apply aindex_lt). assumption.
+  intros s me caus rel sync0 v o. exact (atomic_store_from_new_hb s me caus rel sync0 v o None).
 Qed.
 
 Lemma atomic_store_other : forall s me caus rel sync0 v o j,
   j <> aindex (at_cnt s) ->
   get_store (atomic_store s me caus rel sync0 v o) j = get_store s j.
 Proof.
-  intros s me caus rel sync0 v o j Hne. unfold get_store.
-  destruct (at_stores_atomic_store s me caus rel sync0 v o) as [x [Hx _]]. rewrite Hx.
-  apply list_set_nth_other. intros Heq. apply Hne. symmetry. exact Heq.
+  intros s me caus rel sync0 v o j. exact (atomic_store_from_other s me caus rel sync0 v o None j).
 Qed.
 
 Lemma atomic_store_publishes : forall s me caus rel sync0 v o,
@@ -1833,7 +1892,8 @@ Lemma atomic_rmw_eq : forall s me caus rel idx so fo f,
           | inl s4 =>
               let sync := st_sync (get_store s4 idx) in
               let caus' := sync_load caus sync so in
-              inl (atomic_store s4 me caus' rel sync next so, caus', prev, true)
+              inl (atomic_store_from s4 me caus' rel sync next so
+                     (Some (idx, st_id (get_store s4 idx))), caus', prev, true)
           end
       | None => inl (s3, sync_load caus (st_sync (get_store s3 idx)) fo, prev, false)
       end
@@ -1922,9 +1982,9 @@ Proof.
   { rewrite Hst4. rewrite load_view_keeps_length. rewrite Hst1. exact Hlen. }
   rewrite Hsync4 in Hs, Hc. rewrite Hprev in Hp, Hf.
   subst new. subst s'. rewrite <- Hc4.
-  rewrite atomic_store_new_sync by exact Hl4.
-  rewrite atomic_store_new_value by exact Hl4.
-  rewrite at_cnt_atomic_store.
+  rewrite atomic_store_from_new_sync by exact Hl4.
+  rewrite atomic_store_from_new_value by exact Hl4.
+  rewrite at_cnt_atomic_store_from.
   subst caus' prev.
   split; [apply sync_store_keeps|].
   split; [apply sync_store_released|].
